@@ -714,13 +714,17 @@ def _generator(ctx, L, mlw, wide, endian, lane_acc, domain=None):
     data = _pattern(L)
     kw = {'constant_data': data, 'max_length_width': mlw}
     bpw = 1
-    if wide:
+    if wide == 16:
+        # a 16-bit payload on the plain stream (one valid bit for the whole word): the length limit still counts bytes
+        kw['data_width'] = 16
+        bpw = 2
+    elif wide:
         ss = ctx.index.find_class('SuperSpeedStreamInterface', 'usb.stream')
         ctx.need(ss is not None, 'class SuperSpeedStreamInterface (the 32-bit stream the USB3 descriptor handler uses)')
         ctx.files.add(ss.mod.relpath)
         kw['stream_type'] = ClassRef(ss)
         bpw = 4
-    if endian != 'little' or wide:
+    if endian != 'little' or (wide and wide != 16):
         kw['data_endianness'] = endian
     if domain:
         kw['domain'] = domain
@@ -730,13 +734,15 @@ def _generator(ctx, L, mlw, wide, endian, lane_acc, domain=None):
     ctx.need(d.rom is not None, 'the ROM of %s[%s]' % (GEN, tag))
     ctx.need(d.ml_is_input and ir.signals[ML].w == mlw, 'the max_length input of %s[%s] (%d bits)' % (GEN, tag, mlw))
     pw, vw = ir.signals[PAYLOAD].w, ir.signals[VALID].w
-    ctx.need(pw == 8 * bpw and vw == bpw, 'payload %d bits / valid %d bits in %s[%s] (found %s / %s)' % (8 * bpw, bpw, GEN, tag, pw, vw))
+    ctx.need(pw == 8 * bpw and vw == (1 if wide == 16 else bpw), 'payload %d bits / valid %d bits in %s[%s] (found %s / %s)' % (
+        8 * bpw, bpw, GEN, tag, pw, vw))
     spw = ir.signals[SP].w
     ctx.need(isinstance(spw, int) and spw <= 8, 'width of start_position in %s[%s]' % (GEN, tag))
     mls, note = _ml_values(mlw, L, bpw)
     cfg = _Cfg(tag, data, bpw, endian, _positions(ctx, spw, -(-L // bpw), '%s[%s]' % (GEN, tag)), mls, vw)
     _structural(ctx, GEN, d, cfg)
-    return _run_config(ctx, GEN, d, cfg, note, lane_acc, '%s[w%d,%s]' % (GEN, 8 * bpw, 'le' if endian == 'little' else 'be'))
+    return _run_config(ctx, GEN, d, cfg, note, lane_acc, '%s[w%d,%s%s]' % (GEN, 8 * bpw, 'le' if endian == 'little' else 'be',
+                                                                          ',one-valid-bit' if wide == 16 else ''))
 
 
 def _serializer(ctx, L, mlw, lane_acc, usb_stream=False):
@@ -797,6 +803,9 @@ def run(ctx):
     acc(_generator(ctx, 6 if not thorough else 10, 16, True, 'little', lane_acc, domain='ss'))
     for L in ((3, 5, 7, 8, 9) if thorough else (7,)):
         acc(_generator(ctx, L, _mlw_for(L), True, 'big', lane_acc))
+    # ---- a multi-byte payload on the plain stream (data_width=16, a single valid bit)
+    for L in ((2, 3, 4, 5, 6) if thorough else (4, 5)):
+        acc(_generator(ctx, L, _mlw_for(L), 16, 'little', lane_acc))
     # ---- StreamSerializer (in the tree: data_length 2, max_length_width 2, USB IN stream)
     acc(_serializer(ctx, 2, 2, lane_acc, usb_stream=True))
     for L in ((1, 2, 3, 4, 5, 6, 7, 8) if thorough else (1, 3, 4, 5)):
